@@ -240,6 +240,47 @@ class A(Adapter):
             return "all_served_and_back_at_depot"
         return None
 
+    # ---- reach probes ----------------------------------------------------------------------------
+    def events(self, ps, action, s, ts, env, cfg):
+        dem = np.asarray(s.demands).astype(np.int64)
+        if ps is None:
+            return ((["reset_total_demand_fits_one_trip"] if int(dem.sum()) <= int(s.capacity) else [])
+                    + (["reset_customer_demand_equals_capacity"] if (dem[1:] == int(s.capacity)).any() else [])
+                    + (["reset_sparse_reward"] if cfg.get("rew") == "sparse" else []))
+        a, pos, rem = int(action), int(ps.position), int(ps.capacity)
+        served = self._served(ps)
+        fits_before = ~served & (dem <= rem)
+        fits_before[DEPOT] = False
+        if a == DEPOT and pos == DEPOT:
+            return ["end_invalid_depot_while_at_depot"]
+        if a != DEPOT and served[a]:
+            return ["end_invalid_customer_already_served"]
+        if a != DEPOT and int(dem[a]) > rem:
+            return ["end_invalid_demand_exceeds_capacity"]
+        ev = []
+        if a == DEPOT:
+            ev.append("depot_return")
+            ev.append("depot_return_forced_nothing_fits" if not fits_before.any() else "depot_return_while_customer_fits")
+            if rem == 0:
+                ev.append("depot_return_with_capacity_spent")
+            if bool(served[1:].all()):
+                ev.append("end_all_served_back_at_depot")
+        else:
+            if int(dem[a]) == rem:
+                ev.append("demand_equals_remaining_capacity")
+            if int(s.capacity) == 0:  # read from the successor state (the line above is the rule's view of the same edge)
+                ev.append("capacity_exhausted")
+            left = ~served
+            left[[DEPOT, a]] = False
+            if not left.any():
+                ev.append("last_customer_served")
+            elif not (dem[left] <= rem - int(dem[a])).any():
+                ev.append("no_remaining_customer_fits")
+        k, slots = int(s.num_total_visits), int(np.asarray(s.trajectory).shape[0])
+        if k >= slots:
+            ev.append("trajectory_slots_full" if k == slots else "trajectory_slots_overflow")
+        return ev
+
     # ---- C12 -----------------------------------------------------------------------------------
     def observe(self, s, obs, env, cfg):
         cap = float(cfg["cap"])
